@@ -31,7 +31,10 @@ MANIFEST = dict(
          "tree on every run: CHelpers/FHelpers/LuaHelpers are closed (no KeyError) and acyclic (kernel-checked rank certificate), "
          "every {field} placeholder of every fc/py/lua statement template is a format field that exists for its entry kind; "
          "Header.write_headers and the bracket lines of the four C wrapper file skeletons are #if/#endif- and extern-\"C\"-balanced "
-         "for every option combination. NOT proved: that gcc/g++/gfortran accept the emitted text, and linking. That part is an "
+         "for every option combination; the Fortran USE/IMPORT bookkeeping (update_f_module, update_f_module_line, set_f_module, "
+         "sort_module_info) is a merge: monotone, complete, order-independent as a set, and the USE lines list every required "
+         "symbol; table theorem: every iso_c_binding symbol named in a declaration template of a statement entry is supplied by the "
+         "entry's f_module / f_module_line (f_ entries: or by the emitter's literal additions). NOT proved: that gcc/g++/gfortran accept the emitted text, and linking. That part is an "
          "exploration oracle: real Shroud on the upstream corpus and on generated libraries x {c,c++} x wrapper subsets x F_CFI x "
          "{debug,doxygen,literalinclude,show_splicer_comments} x line lengths, every written file compiled with -fsyntax-only "
          "(headers alone from C and C++, Fortran in module order, Python against CPython headers, Lua against an emulator header).",
@@ -74,6 +77,13 @@ THEOREMS = {
         "Shroud.Helpers.write_headers_may_repeat",
         "Shroud.Helpers.skeletons_if_balanced",
         "Shroud.Helpers.skeletons_extern_balanced",
+        "Shroud.FModule.fmodule_exact",
+        "Shroud.FModule.fmodule_update_monotone",
+        "Shroud.FModule.fmodule_update_complete",
+        "Shroud.FModule.fmodule_update_order_independent",
+        "Shroud.FModule.use_lines_cover",
+        "Shroud.FModule.only_clause_can_narrow",
+        "Shroud.FModule.fmodule_decl_covered",
     ]
 }
 
@@ -444,6 +454,89 @@ def header_tie(ctx, r, ok, thorough):
         ctx.tie_broken("Wrapc file skeletons vs Model.Helpers.write*Sk", bad[:4])
 
 
+# ---------------------------------------------------------------------------------------------- USE/IMPORT tie
+def fmodule_tie(ctx, r, ok, thorough):
+    """real Wrapf.update_f_module / update_f_module_line / set_f_module / sort_module_info on random call sequences vs the model;
+    implementation-only oracle: every symbol a call asked for is in the final USE line of its module."""
+    from shroud import wrapf, util
+    w = wrapf.Wrapf.__new__(wrapf.Wrapf)     # the four methods read no instance state
+    mods = ["iso_c_binding", "mymod", "zmod", "--import--", "selfmod", "Amod"]
+    syms = ["C_INT", "C_DOUBLE", "C_PTR", "c_f_pointer", "x", "Y_", "C_LONG"]
+    names = sorted(set(mods + syms))
+    nid = {n: i for i, n in enumerate(names)}
+    lines, reals, seqs = [], [], []
+    dropped = []       # report the first dropped symbol only
+    for _ in range(3000 if thorough else 800):
+        modules, imports = {}, {}
+        seq, enc, asked = [], [], []
+        for _u in range(r.randrange(1, 6)):
+            kind = r.choice("ddls")
+            if kind == "d":
+                fm = {}
+                for m in r.sample(mods, r.randrange(1, 3)):
+                    fm[m] = r.sample(syms, r.randrange(0, 3))
+                if r.random() < 0.2:
+                    fm["__line__"] = 7
+                w.update_f_module(modules, imports, fm)
+                seq.append(("update_f_module", fm))
+                items = [(m, v) for m, v in fm.items() if m != "__line__"]
+                enc.append("d=" + ";".join("%d:%s" % (nid[m], ",".join(str(nid[x]) for x in v)) for m, v in items))
+                asked += [(m, x) for m, v in items if m != "--import--" for x in v]
+            elif kind == "l":
+                parts = []
+                for m in r.sample(mods, r.randrange(1, 3)):
+                    parts.append((m, r.sample(syms, r.randrange(1, 3))))
+                kindsym = r.choice(syms)
+                line = " ; ".join("%s: %s" % (m, ", ".join("{f_kind}" if (x == kindsym) else x for x in v)) for m, v in parts)
+                w.update_f_module_line(modules, imports, line, util.Scope(None, f_kind=kindsym))
+                seq.append(("update_f_module_line", line, kindsym))
+                enc.append("l=" + ";".join("%d:%s" % (nid[m], ",".join(str(nid[x]) for x in v)) for m, v in parts))
+                asked += [(m, x) for m, v in parts for x in v]
+            else:
+                m = r.choice(mods)
+                v = r.sample(syms, r.randrange(0, 3))
+                w.set_f_module(modules, m, *v)
+                seq.append(("set_f_module", m, v))
+                enc.append("d=%d:%s" % (nid[m], ",".join(str(nid[x]) for x in v)) if m != "--import--" else
+                           "l=%d:%s" % (nid[m], ",".join(str(nid[x]) for x in v)))
+                asked += [(m, x) for x in v]
+        imp2 = dict(imports)
+        use = w.sort_module_info(modules, "selfmod", imp2)
+        got = []
+        final = {}
+        for ln in use:
+            mm = re.match(r"use (\S+?)(?:, only : (.*))?$", ln)
+            final[mm.group(1)] = None if mm.group(2) is None else mm.group(2).split(", ")
+            got.append("%d=%s" % (nid[mm.group(1)], "*" if mm.group(2) is None else ",".join(str(nid[x]) for x in mm.group(2).split(", "))))
+        real = ("|".join(got) or "~") + " # " + (",".join(str(i) for i in sorted(nid[x] for x in imp2)) or "~")
+        ctx.count(1)
+        if len(modules) > 1:
+            ctx.nontrivial(("fmod", real))
+        for m, x in asked:
+            if dropped:
+                break
+            if m != "selfmod" and (m not in final or (final[m] is not None and x not in final[m])):
+                dropped.append((m, x))
+                ctx.fail("fmodule:symbol-dropped", "a symbol requested through update_f_module/update_f_module_line/set_f_module is "
+                         "missing from the USE line written by sort_module_info (%s from %s)" % (x, m),
+                         {"calls": seq, "use_lines": use, "missing": [m, x]})
+                break
+        lines.append("fmod %d %d %s" % (nid["--import--"], nid["selfmod"], " ".join(enc)))
+        reals.append(real)
+        seqs.append(seq)
+    drv = common.Driver("drv_helpers")
+    bad = []
+    if ok and drv.available():
+        for seq, real, mo in zip(seqs, reals, drv.run(lines)):
+            if mo != real:
+                bad.append({"calls": seq, "real": real, "model": mo, "names": names})
+    ctx.note("fmodule_tie", {"cases": len(lines), "disagreements": len(bad)})
+    if seqs:
+        ctx.sample({"fmodule": {"calls": seqs[-1], "use": reals[-1]}})
+    if bad:
+        ctx.tie_broken("Wrapf.update_f_module/update_f_module_line/sort_module_info vs Model.FModule", bad[:4])
+
+
 # ---------------------------------------------------------------------------------------------- table oracles
 def table_oracle(ctx, info, data):
     """implementation-level statements of 2a and 2b on the tables just read"""
@@ -465,6 +558,11 @@ def table_oracle(ctx, info, data):
                  "requests only %r gets text using an undefined name" % (t, hn, nm, kn, hn),
                  {"table": t, "helper": hn, "uses": nm, "of_helper": kn, "dependent_helpers": data["graphs"][t].get(hn),
                   "replay": "gather_helper_code({%r: True}) and compile the collected sources" % hn})
+    for ename, sym in extract_helpers.uncovered_decl_symbols(data.get("fmodule_rows", []), data.get("emitter_adds", [])):
+        ctx.fail("fmodule:uncovered:%s:%s" % (ename, sym),
+                 "statement entry %s names %s in a declaration template but neither its f_module nor its f_module_line supplies it: "
+                 "the interface/wrapper has implicit none and no USE for it" % (ename, sym),
+                 {"entry": ename, "symbol": sym, "replay": "generate a function whose argument selects %s; gfortran -fsyntax-only" % ename})
     provided = {int(k): set(v) for k, v in data["provided"].items()}
     miss = extract_helpers.missing_placeholders(provided, data["entries"])
     if miss:
@@ -605,6 +703,8 @@ def feature_specs(r, thorough):
             names = {"base", "debug", "lines", variants[1 + (fi + common.seed()) % (len(variants) - 1)][0]}
             if feat == "callback":
                 names |= {"cfi-debug", "cline40"}
+            if feat in ("assumed_rank", "fmodule_mix"):
+                names |= {"cfi", "cfi-debug"}
             vs = [v for v in variants if v[0] in names]
         for vn, vopts in vs:
             cfi = any(o.startswith("F_CFI") for o in vopts)
@@ -681,7 +781,7 @@ def excluded(spec, res, yaml_text, baseline):
     return None
 
 
-def compile_oracle(ctx, r, thorough):
+def compile_oracle(ctx, r, thorough, data=None):
     from tools import compile_oracle as co
     fspecs, matrix = feature_specs(r, thorough)
     baseline = load_baseline().get("verdicts", {})
@@ -746,6 +846,16 @@ def compile_oracle(ctx, r, thorough):
             ndup.append((tag, res["dups"][:3]))
         if len(kinds) >= 2:
             ctx.nontrivial(("compile", tag))
+    reached = set()
+    for res in results:
+        reached.update(res.get("stmts") or [])
+    fm_entries = [x["name"] for x in (data or {}).get("fmodule_rows", [])]
+
+    def hit(name):
+        # statement names in the table are patterns (c_native_*_in_cfi, f_native_*_in/out/inout_cdesc); the dump has them verbatim
+        return name in reached
+    ctx.note("f_module_entries", {"total": len(fm_entries), "reached": sorted(n for n in fm_entries if hit(n)),
+                                  "not_reached": sorted(n for n in fm_entries if not hit(n))})
     ctx.note("compile_oracle", {
         "configurations": len(specs), "corpus": sum(1 for s in specs if not s.get("gen")), "generated": sum(1 for s in specs if s.get("gen")),
         "files_by_tool_status": {"%s/%s" % k: v for k, v in sorted(stats.items())},
@@ -809,7 +919,10 @@ def run(ctx):
         "Lean 4.33.0 kernel; axioms within {propext, Classical.choice, Quot.sound}",
         "tools/extract_helpers.py: helper tables after real corpus runs; placeholders by string.Formatter.parse; provided fields = "
         "fields visible to wformat during real generation of the 50 corpus configurations + AST scan of fmt assignments (over-approximation)",
-        "hand-written model Model/Helpers.lean (gather_helper_code, Header.write_headers, four wrapc skeletons), tied differentially",
+        "hand-written models Model/Helpers.lean (gather_helper_code, Header.write_headers, four wrapc skeletons) and Model/FModule.lean "
+        "(USE/IMPORT merge), tied differentially; Gen/FModule.lean: literal C_* tokens of f_arg_decl/f_result_decl/arg_decl templates, "
+        "{f_type} of an explicit interface declaration counted as {f_kind}; kinds reached through {f_type} on the Fortran-wrapper side "
+        "come from typemaps and are outside the table theorem",
         "gcc/g++/gfortran 12 front ends, CPython 3.12 headers, tools/ccheck/luaemu (stand-in for Lua headers)",
     ]
     ctx.cov["rule"] = ("evaluations = tie comparisons (one per emitter and request; per header state; per skeleton case) + table rows + "
@@ -830,7 +943,8 @@ def run(ctx):
     table_oracle(ctx, info, data)
     gather_tie(ctx, r, data, ok, thorough)
     header_tie(ctx, r, ok, thorough)
-    compile_oracle(ctx, r, thorough)
+    fmodule_tie(ctx, r, ok, thorough)
+    compile_oracle(ctx, r, thorough, data)
 
 
 def replay(path):
